@@ -75,8 +75,17 @@ func genC07(t *rapid.T) c07Case {
 		names = append(names, n)
 	}
 	sortStrings(names)
-	names = append(names, "mallory")
+	// unknown users, also with names outside US-ASCII (UTF-8 and plain high bytes)
+	names = append(names, "mallory", "j\xc3\xbcrgen", "\xff\xfe", "m\x80llory")
 	user := func() string { return rapid.SampledFrom(names).Draw(t, "user") }
+	// text for port / rem_addr: mostly plain, sometimes control or high bytes
+	text := func(label, plain string) model.B {
+		switch rapid.IntRange(0, 7).Draw(t, label+"_kind") {
+		case 0:
+			return model.B(rapid.SampledFrom([]string{"tty\xc3\xa9", "\x00\x01", "r\xffm", "100%", ""}).Draw(t, label))
+		}
+		return model.B(plain)
+	}
 	n := rapid.IntRange(1, 12).Draw(t, "nsteps")
 	// pending authentication scripts per session slot
 	pending := map[int][]authPkt{}
@@ -123,11 +132,11 @@ func genC07(t *rapid.T) c07Case {
 				margs = append(margs, model.B(a))
 			}
 			s.Path, s.Type = kind, 2
-			s.Body = model.AuthorRequest{Method: 6, Priv: 1, AType: 1, Service: 1, User: model.B(user()), Port: b("tty0"), RemAddr: b("r"), Args: margs}.Encode()
+			s.Body = model.AuthorRequest{Method: 6, Priv: 1, AType: 1, Service: 1, User: model.B(user()), Port: text("port", "tty0"), RemAddr: text("rem", "r"), Args: margs}.Encode()
 		case "acct":
 			s.Path, s.Type = "acct", 3
 			s.Body = model.AcctRequest{Flags: rapid.SampledFrom([]byte{2, 4, 8, 0x0a, 0x0c, 0, 3}).Draw(t, "acct_flags"), Method: 6, Priv: 1, AType: 1, Service: 1,
-				User: model.B(user()), Port: b("tty0"), RemAddr: b("r"), Args: []model.B{b("task_id=1"), b("cmd=show 100%")}}.Encode()
+				User: model.B(user()), Port: text("port", "tty0"), RemAddr: text("rem", "r"), Args: []model.B{b("task_id=1"), model.B(rapid.SampledFrom([]string{"cmd=show 100%", "cmd=caf\xc3\xa9", "x"}).Draw(t, "acct_arg"))}}.Encode()
 		case "foreign-body":
 			// a well-formed body of another packet type under this header type
 			s.Type = rapid.SampledFrom([]byte{1, 2, 3}).Draw(t, "hdr_type")
@@ -193,6 +202,7 @@ func genC07(t *rapid.T) c07Case {
 
 func runC07(t failer, c c07Case) (paths []string) {
 	ev.Eval()
+	journal("C07", c)
 	c.World.Cfg.Restore()
 	fail := func(i int, sig, format string, args ...interface{}) {
 		s := c.Steps[i]
